@@ -552,6 +552,36 @@ pub fn c16_run(opts: &crate::Opts, out: &mut Out) {
             }
         }
     }
+    // (5) whatever the validating constructors accept must not make verification panic: statement shapes at the edge
+    // of the documented domain (promise counts, seeds with spare capacity, counts vs capacity)
+    for (cap, nc) in [(2usize, 1usize), (4, 1), (4, 2), (8, 2), (2, 2), (4, 4)] {
+        let base = random_inst(8, nc, cap, 2, 4, false, &mut rng);
+        let good_stmt = base.statement();
+        let proof = base.prove(&mut rng).unwrap();
+        for np in [nc.saturating_sub(1), nc, nc + 1, cap, cap + 1] {
+            for seeded in [false, true] {
+                let promises: Vec<Option<u64>> = (0..np).map(|i| if i % 2 == 0 { None } else { Some(1) }).collect();
+                let st = std::panic::catch_unwind(std::panic::AssertUnwindSafe(|| {
+                    RangeStatement::init(params(8, cap, 2), good_stmt.commitments.clone(), promises.clone(), if seeded { Some(Scalar::from(5u8)) } else { None })
+                }));
+                let key = format!("{} constructed statement cap={} commitments={} promises={} seeded={}", GROUP, cap, nc, np, seeded);
+                let Ok(st) = st else {
+                    out.oracle("C16:constructor-no-panic", false, &key, "RangeStatement::init panicked");
+                    continue;
+                };
+                if let Ok(st) = st {
+                    for action in ACTIONS {
+                        let r = std::panic::catch_unwind(std::panic::AssertUnwindSafe(|| Proof::verify_batch(&mut [base.transcript()], std::slice::from_ref(&st), std::slice::from_ref(&proof), action).is_ok()));
+                        ncalls += 1;
+                        out.oracle("C16:verify-no-panic", r.is_ok(), &format!("{} action={}", key, action_name(action)), "a statement accepted by the validating constructor makes verification panic");
+                        let r2 = std::panic::catch_unwind(std::panic::AssertUnwindSafe(|| Proof::verify_batch(&mut [base.transcript(), base.transcript()], &[good_stmt.clone(), st.clone()], &[proof.clone(), proof.clone()], action).is_ok()));
+                        out.oracle("C16:verify-no-panic", r2.is_ok(), &format!("{} in-batch action={}", key, action_name(action)), "a statement accepted by the validating constructor makes batch verification panic");
+                    }
+                    classes.insert((cap, nc, np, seeded as usize, 97, "ctor"));
+                }
+            }
+        }
+    }
     out.stat(&format!("calls_{}", GROUP), ncalls);
     out.stat(&format!("worst_ms_{}", GROUP), worst_ms as u64);
     out.stat("distinct_classes", classes.len());
